@@ -136,15 +136,27 @@ ARRAY_FORMS = ("f64", "i64", "view", "F")
 
 class Case:
     """All numbers exact Fractions; vectors have length M (padded to 3 when printed).
-    forms: how each argument is handed to the implementation (dtype / container / memory layout)."""
+    forms: how each argument is handed to the implementation (dtype / container / memory layout).
+    scale: every length (lattice, points, centre, radius) is multiplied by 2**scale when handed to the implementation and
+           the returned positions are divided by it again (exact in binary floating point); pts/A/c/r here are unscaled.
+    hist:  None, or how the queried grid object is obtained: dict(parent=Case, ops=[...], target='g'|'h') where the
+           parent is constructed as `g` and ops are ('q', 'g'|'h', centre, radius) earlier queries, ('sel', spec) h = g[spec],
+           ('setw', 'g'|'h', weights), ('setp', 'g'|'h', points).  pts/wts/wrap of this case describe the grid that
+           the target object must be equivalent to."""
 
-    def __init__(self, M, path1d, A, pts, wts, wrap, c, r, tag, forms=None):
+    def __init__(self, M, path1d, A, pts, wts, wrap, c, r, tag, forms=None, scale=0, hist=None):
         self.M, self.path1d, self.A, self.pts, self.wts, self.wrap, self.c, self.r, self.tag = M, path1d, A, pts, wts, wrap, c, r, tag
         self.K = len(A)
         self.B = [[Fr(1) / A[0][0]]] if (path1d and self.K == 1) else recip(A)
         self.forms = {"pts": "f64", "rv": "f64", "w": "f64", "c": "f64", "r": "float"}
         self.forms.update(forms or {})
+        self.scale = scale
+        self.hist = hist
         self.exact = False   # commensurate family: set by the harness when the float pipeline is verified exact
+
+    @property
+    def s(self):
+        return Fr(2) ** self.scale
 
     def key(self):
         def fl(v):
@@ -152,43 +164,49 @@ class Case:
         f = self.forms
         fs = "" if all(f[k] == d for k, d in (("pts", "f64"), ("rv", "f64"), ("w", "f64"), ("c", "f64"), ("r", "float"))) else \
             f":forms={f['pts']}/{f['rv']}/{f['w']}/{f['c']}/{f['r']}"
+        if self.scale:
+            fs += f":scale=2^{self.scale}"
+        if self.hist:
+            fs += ":hist=" + self.hist["desc"] + "<" + self.hist["parent"].key() + ">"
         return (f"{'1d' if self.path1d else 'nd'}:M={self.M}:A=[{','.join(fl(a) for a in self.A)}]:wrap={int(self.wrap)}:"
                 f"pts=[{','.join(fl(p) for p in self.pts)}]:c={fl(self.c)}:r={self.r}{fs}")
 
-    # ---- the actual Python objects and a source text that rebuilds them
-    def _arr(self, rows, form, one, ncol):
-        """rows: list of Fraction vectors -> (object, source)."""
+    # ---- source text of the arguments (the implementation is run by executing this text: replay = run)
+    def _arr(self, rows, form, one, ncol, scaled=True):
+        rows = [[x * self.s for x in r] for r in rows] if scaled else rows
+        if form == "i64" and not all(x.denominator == 1 for r in rows for x in r):
+            form = "f64"
+        as_int = form == "i64"
+        dt = "np.int64" if as_int else "float"
         if one:
-            vals = [r[0] for r in rows]
-            lit = "[" + ", ".join(_num_src(v, form == "i64") for v in vals) + "]"
-            base = np.array([int(v) if form == "i64" else float(v) for v in vals], dtype=(np.int64 if form == "i64" else float)).reshape(len(vals))
-            src = f"np.array({lit}, dtype={'np.int64' if form == 'i64' else 'float'}).reshape({len(vals)})"
+            lit = "[" + ", ".join(_num_src(r[0], as_int) for r in rows) + "]"
+            src = f"np.array({lit}, dtype={dt}).reshape({len(rows)})"
         else:
-            lit = "[" + ", ".join("[" + ", ".join(_num_src(x, form == "i64") for x in r) + "]" for r in rows) + "]"
-            base = np.array([[int(x) if form == "i64" else float(x) for x in r] for r in rows],
-                            dtype=(np.int64 if form == "i64" else float)).reshape(len(rows), ncol)
-            src = f"np.array({lit}, dtype={'np.int64' if form == 'i64' else 'float'}).reshape({len(rows)}, {ncol})"
+            lit = "[" + ", ".join("[" + ", ".join(_num_src(x, as_int) for x in r) + "]" for r in rows) + "]"
+            src = f"np.array({lit}, dtype={dt}).reshape({len(rows)}, {ncol})"
         if form == "view":       # non-contiguous view into a larger buffer
-            big = np.full(tuple(2 * n + 1 for n in base.shape), 7.5)
-            sl = tuple(slice(1, None, 2) for _ in base.shape)
-            big[sl] = base
-            return big[sl], f"_view({src})"
-        if form == "F" and base.ndim == 2:
-            return np.asfortranarray(base), f"np.asfortranarray({src})"
-        return base, src
+            return f"_view({src})"
+        if form == "F" and not one:
+            return f"np.asfortranarray({src})"
+        return src
 
-    def build(self):
-        """-> (points, weights, realvecs, center, radius, source text of the call)"""
+    def ctor_src(self):
         f = self.forms
         one = self.path1d
-        pts, ps = self._arr(self.pts, f["pts"], one, self.M)
+        ps = self._arr(self.pts, f["pts"], one, self.M)
         if self.K == 0 and (one or f["rv"] == "none"):
-            rv, rs = None, "None"
+            rs = "None"
         else:
-            rv, rs = self._arr(self.A, f["rv"], one, self.M)
-        w, ws = self._arr([[x] for x in self.wts], f["w"], True, 1)
+            rs = self._arr(self.A, "f64" if f["rv"] == "none" else f["rv"], one, self.M)
+        ws = self._arr([[x] for x in self.wts], f["w"], True, 1, scaled=False)
+        return f"PeriodicGrid({ps}, {ws}, {rs}, wrap={self.wrap})"
+
+    def query_args_src(self, c=None, r=None, forms=None):
+        f = forms or self.forms
+        one = self.path1d
+        cv = [x * self.s for x in (self.c if c is None else c)]
+        rr = (self.r if r is None else r) * self.s
         cf = f["c"]
-        cv = self.c
         integral = all(x.denominator == 1 for x in cv)
         if cf in ("scalar", "npscalar", "0d") and not one:
             cf = "list"
@@ -198,40 +216,53 @@ class Case:
             x = cv[0]
             iv = integral and cf in ("i64", "scalar", "npscalar", "0d", "list", "tuple")
             if cf in ("scalar", "list", "tuple", "view"):
-                c, cs = (int(x) if iv else float(x)), _num_src(x, iv)
+                cs = _num_src(x, iv)
             elif cf == "npscalar":
-                c = np.int64(int(x)) if iv else np.float64(float(x))
                 cs = f"np.{'int64' if iv else 'float64'}({_num_src(x, iv)})"
             elif cf == "i64":
-                c, cs = np.array(int(x)), f"np.array({int(x)})"
+                cs = f"np.array({int(x)})"
             else:  # f64, 0d
-                c, cs = np.array(float(x)), f"np.array({float(x)!r})"
+                cs = f"np.array({float(x)!r})"
         else:
             if cf == "list":
-                c = [int(x) if integral else float(x) for x in cv]
                 cs = "[" + ", ".join(_num_src(x, integral) for x in cv) + "]"
             elif cf == "tuple":
-                c = tuple(int(x) if integral else float(x) for x in cv)
                 cs = "(" + ", ".join(_num_src(x, integral) for x in cv) + ",)"
             else:
-                c, cs = self._arr([cv], "i64" if cf == "i64" else ("view" if cf == "view" else "f64"), False, self.M)
-                c = c[0]
-                cs = cs + "[0]"
+                cs = self._arr([cv], "i64" if cf == "i64" else ("view" if cf == "view" else "f64"), False, self.M, scaled=False) + "[0]"
         rf = f["r"]
-        rint = self.r.denominator == 1
+        rint = rr.denominator == 1
         if rf == "int" and rint:
-            r, rsrc = int(self.r), str(int(self.r))
+            rsrc = str(int(rr))
         elif rf == "npint" and rint:
-            r, rsrc = np.int64(int(self.r)), f"np.int64({int(self.r)})"
+            rsrc = f"np.int64({int(rr)})"
         elif rf == "npfloat":
-            r, rsrc = np.float64(float(self.r)), f"np.float64({float(self.r)!r})"
+            rsrc = f"np.float64({float(rr)!r})"
         else:
-            r, rsrc = float(self.r), repr(float(self.r))
-        src = f"PeriodicGrid({ps}, {ws}, {rs}, wrap={self.wrap}).get_localgrid({cs}, {rsrc})"
-        return pts, w, rv, c, r, src
+            rsrc = repr(float(rr))
+        return f"{cs}, {rsrc}"
+
+    def script(self):
+        """-> list of (stage, line); the last line assigns lg."""
+        if not self.hist:
+            return [("__init__", "g = " + self.ctor_src()), ("get_localgrid", f"lg = g.get_localgrid({self.query_args_src()})")]
+        par = self.hist["parent"]
+        plain = {"c": "f64", "r": "float"}
+        lines = [("__init__", "g = " + par.ctor_src())]
+        for op in self.hist["ops"]:
+            if op[0] == "q":
+                lines.append(("history", f"_ = {op[1]}.get_localgrid({par.query_args_src(op[2], op[3], plain)})"))
+            elif op[0] == "sel":
+                lines.append(("history", f"h = g[{op[1]}]"))
+            elif op[0] == "setw":
+                lines.append(("history", f"{op[1]}.weights = " + par._arr([[x] for x in op[2]], "f64", True, 1, scaled=False)))
+            elif op[0] == "setp":
+                lines.append(("history", f"{op[1]}.points = " + par._arr(op[2], "f64", par.path1d, par.M)))
+        lines.append(("get_localgrid", f"lg = {self.hist['target']}.get_localgrid({self.query_args_src()})"))
+        return lines
 
     def py(self):
-        return self.build()[5]
+        return "; ".join(l for _, l in self.script())
 
 
 def _num_src(x, as_int):
@@ -240,6 +271,13 @@ def _num_src(x, as_int):
 
 VIEW_HELPER = ("def _view(a):\n    big = np.full(tuple(2 * n + 1 for n in a.shape), 7.5)\n"
                "    sl = tuple(slice(1, None, 2) for _ in a.shape)\n    big[sl] = a\n    return big[sl]\n")
+
+
+def _view(a):
+    big = np.full(tuple(2 * n + 1 for n in a.shape), 7.5)
+    sl = tuple(slice(1, None, 2) for _ in a.shape)
+    big[sl] = a
+    return big[sl]
 
 
 def pad3(v):
@@ -274,29 +312,42 @@ class _ItShim:
 
 
 def run_impl(case: Case):
-    """-> dict(kind, items (sorted exact), exc, box, spts, recivecs, spacings, frac_intvls)"""
+    """Executes case.script() line by line (the same text is the replay).  Positions, stored points, reciprocal
+    vectors and spacings are returned in unscaled units (exact division by 2**scale).
+    -> dict(kind, items (sorted exact), exc, box, spts, recivecs, spacings, frac_intvls)"""
     import grid.periodicgrid as pg
 
-    pts, w, rv, c, r, _ = case.build()
     out = {"kind": None, "items": [], "exc": None, "box": None, "spts": None, "recivecs": None, "spacings": None,
            "frac_intvls": None, "center_ok": True}
+    env = {"np": np, "PeriodicGrid": pg.PeriodicGrid, "_view": _view}
+    lines = case.script()
+    sf = float(case.s)
+    for stage, line in lines[:-1]:
+        try:
+            exec(line, env)  # noqa: S102 - text generated by this module
+        except Exception as e:  # noqa: BLE001
+            out["kind"] = "raise"
+            out["exc"] = (type(e).__name__, stage, str(e)[:120])
+            return out
+    tname = case.hist["target"] if case.hist else "g"
+    g = env[tname]
     try:
-        g = pg.PeriodicGrid(pts, w, rv, wrap=case.wrap)
+        npts = len(case.pts)
+        out["spts"] = np.array(g.points, dtype=float).reshape(npts, -1) / sf
+        out["recivecs"] = (np.array(g.recivecs, dtype=float).reshape(-1, case.M) if np.size(g.recivecs) else np.zeros((0, case.M))) * sf
+        out["spacings"] = np.array(g.spacings, dtype=float).reshape(-1) / sf
+        out["frac_intvls"] = np.array(g.frac_intvls, dtype=float).reshape(-1, 2)
     except Exception as e:  # noqa: BLE001
         out["kind"] = "raise"
-        out["exc"] = (type(e).__name__, "__init__", str(e)[:120])
+        out["exc"] = (type(e).__name__, "history", "grid object has unexpected shape: " + str(e)[:80])
         return out
-    out["spts"] = np.array(g.points, dtype=float).reshape(len(case.pts), -1)
-    out["recivecs"] = np.array(g.recivecs, dtype=float).reshape(-1, case.M) if np.size(g.recivecs) else np.zeros((0, case.M))
-    out["spacings"] = np.array(g.spacings, dtype=float).reshape(-1)
-    out["frac_intvls"] = np.array(g.frac_intvls, dtype=float).reshape(-1, 2)
     shim = _ItShim()
     saved = pg.__dict__.get("itertools")
     try:
         if saved is not None:
             pg.itertools = shim
         try:
-            lg = g.get_localgrid(c, r)
+            exec(lines[-1][1], env)  # noqa: S102
         finally:
             if saved is not None:
                 pg.itertools = saved
@@ -305,18 +356,20 @@ def run_impl(case: Case):
         out["exc"] = (type(e).__name__, "get_localgrid", str(e)[:120])
         out["box"] = shim.boxes[0] if len(shim.boxes) == 1 else None
         return out
+    lg = env["lg"]
     out["box"] = shim.boxes[0] if len(shim.boxes) == 1 else None
     nloc = len(lg.weights)
     P = np.array(lg.points, dtype=float).reshape(nloc, -1) if nloc else np.zeros((0, case.M))
     idx = np.array(lg.indices).reshape(-1)
     items = []
+    s = case.s
     for k in range(len(idx)):
-        items.append((int(idx[k]), tuple(pad3([Fr(float(x)) for x in P[k]])), Fr(float(lg.weights[k]))))
+        items.append((int(idx[k]), tuple(pad3([Fr(float(x)) / s for x in P[k]])), Fr(float(lg.weights[k]))))
     out["kind"] = "ok"
     out["items"] = sorted(items)
     try:
         out["center_ok"] = bool(np.array_equal(np.asarray(lg.center, dtype=float).reshape(-1),
-                                               np.array([float(x) for x in case.c])))
+                                               np.array([float(x * s) for x in case.c])))
     except Exception:  # noqa: BLE001
         out["center_ok"] = False
     return out
@@ -324,7 +377,7 @@ def run_impl(case: Case):
 
 def exc_obs(exc):
     name, where, msg = exc
-    tag = "finfo" if "finfo" in msg else ""
+    tag = "finfo" if "finfo" in msg else ("singular" if "singular" in msg else "")
     return f"{name}@{where}" + (f"({tag})" if tag else "")
 
 
@@ -412,14 +465,24 @@ def exact_box(case: Case):
 
 
 # ----------------------------------------------------------------------------------------------- generators
+SCALES = [-40, -30, -24, -20, -17, -14, -12, -10, -6, -3, -1, 1, 2, 5, 10, 20, 33]
+
+
+def rand_scale(rng, case: Case, p=0.45):
+    """Units: all lengths times 2**scale (cells from 1e-12 to 1e10 across; exact in binary floating point)."""
+    if rng.random() < p:
+        case.scale = rng.choice(SCALES)
+
+
 def rand_forms(rng, case: Case, plain=0.35):
-    """Presentation of the arguments.  Integer dtypes only where the values are integers; an integer-dtype lattice
-    on the 2-D array path is a separate (known) finding and only sampled rarely."""
+    """Presentation of the arguments.  Integer dtypes only where the (scaled) values are integers; an integer-dtype
+    lattice on the 2-D array path is sampled rarely (former finding)."""
     if rng.random() < plain:
         return
     f = case.forms
-    int_pts = all(x.denominator == 1 for p in case.pts for x in p)
-    int_rv = case.K > 0 and all(x.denominator == 1 for a in case.A for x in a)
+    sc = case.s
+    int_pts = all((x * sc).denominator == 1 for p in case.pts for x in p)
+    int_rv = case.K > 0 and all((x * sc).denominator == 1 for a in case.A for x in a)
     f["pts"] = rng.choice(["f64", "view", "F"] + (["i64", "i64"] if int_pts else []))
     rvc = ["f64", "view", "F"]
     if int_rv and (case.path1d or rng.random() < 0.04):
@@ -430,14 +493,108 @@ def rand_forms(rng, case: Case, plain=0.35):
     f["w"] = rng.choice(["f64", "view"])
     f["c"] = rng.choice(list(CENTER_FORMS) + ["i64", "list"])
     f["r"] = rng.choice(["float", "int", "npint", "npfloat"])
-    # normalise to what is actually built (see Case.build)
-    integral = all(x.denominator == 1 for x in case.c)
+    # normalise to what is actually built (see Case.query_args_src)
+    integral = all((x * sc).denominator == 1 for x in case.c)
     if f["c"] in ("scalar", "npscalar", "0d") and not case.path1d:
         f["c"] = "list"
     if f["c"] == "i64" and not integral:
         f["c"] = "f64"
-    if f["r"] in ("int", "npint") and case.r.denominator != 1:
+    if f["r"] in ("int", "npint") and (case.r * sc).denominator != 1:
         f["r"] = "float"
+
+
+def exact_stored(case: Case):
+    """Exact stored points of the grid (wrapped into the cell when wrap is set)."""
+    if not (case.wrap and case.K):
+        return [list(p) for p in case.pts]
+    out = []
+    for p in case.pts:
+        f = [fdot(b, p) for b in case.B]
+        out.append([p[d] - sum((ffloor(f[k]) * case.A[k][d] for k in range(case.K)), Fr(0)) for d in range(case.M)])
+    return out
+
+
+def make_history(rng, base: Case, kind=None):
+    """A grid object reached through a history on one object: earlier queries (cached k-d tree), grid[...] selections
+    (int / slice / mask / index array / list), queries on the selection, weights / points setters.  Returns the case
+    describing the grid the queried object must be equivalent to."""
+    par = base
+    if par.wrap and par.K and any(fdot(b, p).denominator == 1 for p in par.pts for b in par.B):
+        par.wrap = False     # a coordinate exactly on a cell boundary: the float wrap may pick either representative
+    stored = exact_stored(par)
+    N = len(par.pts)
+    kind = kind or rng.choice(["requery", "part", "part", "part", "part", "parent-after-part", "setw"] + (["setp"] if rng.random() < 0.25 else []))
+
+    def q(target):
+        c = [x + Fr(rng.randint(-4, 4), 4) for x in par.c]
+        return ("q", target, c, par.r if rng.random() < 0.6 else max(Fr(1, 8), par.r - Fr(rng.randint(1, 3), 4)))
+
+    def selection():
+        t = rng.choice(["int", "slice", "slice", "mask", "idx", "idx", "list"])
+        if t == "int":
+            i = rng.randrange(-N, N)
+            return str(i), [i % N]
+        if t == "slice":
+            while True:
+                a, b, st = rng.choice([None] + list(range(-N, N + 1))), rng.choice([None] + list(range(-N, N + 1))), rng.choice([None, 1, 2, -1, -1, -2])
+                idx = list(range(N))[slice(a, b, st)]
+                if idx:
+                    return f"slice({a}, {b}, {st})", idx
+        if t == "mask":
+            while True:
+                m = [rng.random() < 0.6 for _ in range(N)]
+                if any(m):
+                    return "np.array([" + ", ".join(str(x) for x in m) + "])", [i for i in range(N) if m[i]]
+        idx = [rng.randrange(N) for _ in range(rng.randint(1, N + 1))]
+        if t == "idx":
+            return "np.array([" + ", ".join(str(i) for i in idx) + "])", idx
+        return "[" + ", ".join(str(i) for i in idx) + "]", idx
+
+    ops, target = [], "g"
+    pts, wts, wrap = stored, list(par.wts), False
+    if kind == "requery":
+        ops = [q("g") for _ in range(rng.randint(1, 2))]
+        pts, wrap = [list(p) for p in par.pts], par.wrap
+    elif kind in ("part", "parent-after-part"):
+        ops = [q("g") for _ in range(rng.randint(0, 2))]
+        src, idx = selection()
+        ops.append(("sel", src))
+        if kind == "part":
+            ops += [q("h") for _ in range(rng.randint(0, 1))]
+            target = "h"
+            pts, wts = [stored[i] for i in idx], [par.wts[i] for i in idx]
+        else:
+            ops.append(q("h"))
+            pts, wrap = [list(p) for p in par.pts], par.wrap
+        kind += ":" + src.split("(")[0].split("[")[0].strip("-0123456789") or "int"
+    elif kind == "setw":
+        ops = [q("g") for _ in range(rng.randint(0, 1))]
+        wts = [Fr(5 * i + 3, 8) * (-1 if i % 2 else 1) for i in range(N)]
+        ops.append(("setw", "g", wts))
+        pts, wrap = [list(p) for p in par.pts], par.wrap
+    elif kind == "setp":
+        ops = [q("g") for _ in range(rng.randint(0, 1))]
+        pts = []
+        while len(pts) < N:
+            p = [Fr(rng.randint(-12, 12)) for _ in range(par.M)]
+            if p not in pts or N > 20 ** par.M:
+                pts.append(p)
+        ops.append(("setp", "g", pts))
+    forms = dict(par.forms)
+    case = Case(par.M, par.path1d, par.A, pts, wts, wrap, par.c, par.r, par.tag, forms, par.scale,
+                {"parent": par, "ops": ops, "target": target, "desc": kind})
+    return case
+
+
+def hist_case(rng, comm=False, kind=None):
+    while True:
+        base = comm_case(rng) if comm else rand_case(rng)
+        case = make_history(rng, base, kind)
+        n = 1
+        for l in oracle_box(case):
+            n *= 2 * l + 1
+        if n * len(case.pts) <= 1_500_000:
+            return case
 
 
 def rand_lattice(rng, M, K, kind):
@@ -524,6 +681,7 @@ def rand_case(rng, big=False):
         for l in oracle_box(case):
             n *= 2 * l + 1
         if n * len(case.pts) <= 1_500_000:
+            rand_scale(rng, case)
             rand_forms(rng, case)
             return case
 
@@ -618,6 +776,7 @@ def comm_case(rng):
         vol = cell_volume(case.A)
         est = unit_ball(case.K) * float(case.r) ** case.K / vol * len(case.pts)
         if n * len(case.pts) <= 1_500_000 and est <= 500 and float(case.r) <= 6:
+            rand_scale(rng, case)
             rand_forms(rng, case)
             return case
 
@@ -661,14 +820,20 @@ def fixed_cases():
     return out
 
 
-# canonical witness of the remaining genuine defect (an integer-dtype lattice array on the 2-D array path)
+# canonical witnesses of genuine defects (the integer-dtype lattice one is fixed in the current source and kept as a regression case)
 def witnesses():
     F = Fr
+    par = Case(2, False, [[F(4), F(0)], [F(0), F(4)]], [[F(0), F(0)], [F(1), F(1)]], [F(1), F(2)], False, [F(0), F(0)], F(17, 8), "witness")
+    newp = [[F(8), F(8)], [F(9), F(9)]]
+    setp = Case(2, False, par.A, newp, par.wts, False, par.c, par.r, "witness", None, 0,
+                {"parent": par, "ops": [("setp", "g", newp)], "target": "g", "desc": "setp"})
     return [
         ("int_lattice_dtype", "int-realvecs",
          Case(2, False, [[F(2), F(0)], [F(0), F(2)]], [[F(0), F(0)], [F(1), F(1)]], [F(1), F(2)], False, [F(0), F(0)], F(3, 2), "witness",
               {"rv": "i64"}),
          "lattice vectors given as an integer-dtype array must give the same local grid as the equal float array"),
+        ("points_setter_stale_intervals", "setpoints", setp,
+         "after `grid.points = new_points` the local grid must consist of the periodic images of the new points"),
     ]
 
 
@@ -717,6 +882,8 @@ def defect_class(case: Case, impl):
     if (not case.path1d and case.K > 0 and case.forms["rv"] == "i64" and impl["kind"] == "raise"
             and impl["exc"][0] == "ValueError" and impl["exc"][1] == "__init__" and "finfo" in impl["exc"][2]):
         return "int-realvecs"
+    if case.hist and case.K > 0 and any(op[0] == "setp" for op in case.hist["ops"]):
+        return "setpoints"      # PeriodicGrid inherits the points setter: frac_intvls stays that of the old points
     return None
 
 
@@ -798,10 +965,12 @@ def source_units(ctx: Ctx):
 
 
 def replay_of(case: Case, orc):
-    return {"reproduce": "import numpy as np\nfrom grid.periodicgrid import PeriodicGrid\n" + VIEW_HELPER + "lg = " + case.py()
-                         + "\nprint(sorted(zip(lg.indices.tolist(), np.asarray(lg.points).reshape(len(lg.indices), -1).tolist())))",
+    sc = f" / {float(case.s)!r}" if case.scale else ""
+    return {"reproduce": "import numpy as np\nfrom grid.periodicgrid import PeriodicGrid\n" + VIEW_HELPER + "\n".join(l for _, l in case.script())
+                         + f"\nprint(sorted(zip(lg.indices.tolist(), (np.asarray(lg.points).reshape(len(lg.indices), -1){sc}).tolist())))",
             "expected_entries": len(orc),
-            "expected_first": [(i, [str(x) for x in p], str(w)) for i, p, w in orc[:12]]}
+            "expected_first (index, position" + (" / 2**%d" % case.scale if case.scale else "") + ", weight)":
+                [(i, [str(x) for x in p], str(w)) for i, p, w in orc[:12]]}
 
 
 def run(ctx: Ctx):
@@ -822,13 +991,16 @@ def run(ctx: Ctx):
     validate_ball(ctx, rng, 300 if ctx.quick else 3000)
 
     # ---------------- cases
-    n_rand = 800 if ctx.quick else 8000
-    n_comm = 500 if ctx.quick else 5000
+    n_rand = 600 if ctx.quick else 8000
+    n_comm = 350 if ctx.quick else 5000
     cases = [(w[2], w) for w in witnesses()] + [(c, None) for c in fixed_cases()]
     for k in range(n_rand):
         cases.append((rand_case(rng, big=(not ctx.quick and k % 7 == 0)), None))
     for k in range(n_comm):
         cases.append((comm_case(rng), None))
+    n_hist = 300 if ctx.quick else 4000
+    for k in range(n_hist):
+        cases.append((hist_case(rng, comm=(k % 3 == 0)), None))
 
     exprs, meta = [], []
     stats = {"edge_lo": 0, "edge_hi": 0, "nonempty": 0, "box_eq": 0, "box_cmp": 0, "box_tie": 0, "box_wider": 0, "box_narrower": 0,
@@ -842,6 +1014,8 @@ def run(ctx: Ctx):
         ctx.count("sphere:" + ("empty" if not orc else ("1-9" if len(orc) < 10 else ("10-99" if len(orc) < 100 else ">=100"))))
         for k_, v_ in case.forms.items():
             ctx.count(f"form:{k_}={v_}")
+        ctx.count("scale:" + ("1" if not case.scale else ("<=2^-14" if case.scale <= -14 else ("2^-13..2^-1" if case.scale < 0 else (">=2^14" if case.scale >= 14 else "2^1..2^13")))))
+        ctx.count("history:" + (case.hist["desc"] if case.hist else "fresh"))
         if any(case.forms[k_] != d_ for k_, d_ in (("pts", "f64"), ("rv", "f64"), ("w", "f64"), ("c", "f64"), ("r", "float"))):
             stats["nondefault_forms"] += 1
         if case.forms["c"] in ("i64", "list", "tuple", "scalar", "npscalar") and all(x.denominator == 1 for x in case.c):
@@ -901,7 +1075,7 @@ def run(ctx: Ctx):
 
     tie_err = None
     try:
-        bad = set(ctx.coq_bool_cases("C11_cases", HDR, exprs, shard=30 if ctx.quick else 120))
+        bad = set(ctx.coq_bool_cases("C11_cases", HDR, exprs, shard=40 if ctx.quick else 120))
     except Exception as e:  # noqa: BLE001  the model no longer compiles / evaluates
         tie_err = e
         bad = set()
@@ -938,10 +1112,13 @@ def run(ctx: Ctx):
         ctx.notes.append(f"{stats['box_wider']} cases: the implementation enumerates a larger integer box than the model (harmless for the property)")
 
     # ---------------- search: oracle sweep without Coq (cheap, many more inputs)
-    n_sweep = 6000 if ctx.quick else 100000
+    n_sweep = 4500 if ctx.quick else 60000
     for k in range(n_sweep):
         comm = k % 3 == 0
-        case = comm_case(rng) if comm else rand_case(rng, big=(k % 5 == 0))
+        if k % 4 == 3:
+            case = hist_case(rng, comm=comm)
+        else:
+            case = comm_case(rng) if comm else rand_case(rng, big=(k % 5 == 0))
         impl = run_impl(case)
         orc, _ = oracle(case)
         ctx.case(None)
